@@ -3,13 +3,8 @@ import json, os, sys, traceback
 from .common import Report, VERIF
 from .facts import extract, FactError, REPO, FLAVOURS, extra_flavours, stable_lints, toolchain_skew, build_time_inputs
 from .extract import Ctx
-from .mirtab import Undecided
+from .mirtab import Undecided, BudgetExceeded
 import signal
-
-
-class BudgetExceeded(BaseException):
-    """Raised by the wall-clock budget; deliberately not an Exception so that no `except Undecided` / `except Exception` inside the
-    engine swallows it."""
 from . import rules_scancode as RS
 from . import rules_ps2 as RP
 from . import rules_event as RE
